@@ -7,6 +7,7 @@ driver (logged edge list = buildGraph, every logged transition is a Next step, f
 Oracle: start/end journal written by the step commands.
 """
 import sched_common as sc
+import sched_history as sh
 
 OWN = {'C10'}
 SIGNALS = [11, 9, 15, 6]        # SEGV, KILL, TERM, ABRT
@@ -154,6 +155,41 @@ def model_cycle_test(ctx, chk, quick):
                 chk.disagreement('acyclic-model', {'n': n, 'edges': e}, want, a, 'model cycle test differs from the reference')
 
 
+def model_edge_test(ctx, chk):
+    """the model's `dependencies_to_path` (driver command `edge`, = Gen.depEdge regenerated from the Rust arms) against the
+    harness's own reading of "reads" on generated questions, including: items recorded, output not recorded but matching"""
+    import common
+    if not ctx.model:
+        return
+    qs = []
+    pats = ['data/*.txt', 'data/a?.txt', 'out/s1/*.txt', '*.csv', 'd/e/*.bin']
+    paths = ['data/a.txt', 'data/b.txt', 'data/ab.txt', 'data/sub/c.txt', 'out/s1/o.txt', 'x.csv', 'd/e/f.bin', 'other.txt']
+    for pat in pats:
+        matching = [p for p in paths if sh.hmatch(pat, p)]
+        for out in paths:
+            for rec in ([], matching[:1], matching, [m for m in matching if m != out]):
+                for kind in ('Glob', 'GlobItems'):
+                    qs.append((kind, pat, rec, out, sh.hmatch(pat, out)))
+    for kind in ('File', 'Regex', 'RegexItems', 'Lines', 'LineItems', 'Param', 'SqliteQueryDigest'):
+        for a in paths[:4]:
+            for b in paths[:4]:
+                qs.append((kind, a, [], b, a == b))
+    for kind in ('Step', 'Generic', 'UrlDigest'):
+        qs.append((kind, 'x', [], 'x', False))
+    lines = [f'{k} {pat} {",".join(rec) if rec else "-"} {out}' for (k, pat, rec, out, _) in qs]
+    rc, outl, err = common.run_lines(ctx.model, ['edge'], lines)
+    st = chk.tie['streams'].setdefault('edge-model', {'questions': len(qs), 'recorded_nonempty_and_out_not_recorded_but_matching': 0, 'disagreements': 0})
+    for (k, pat, rec, out, want), a in zip(qs, outl):
+        chk.evaluations += 1
+        if rec and out not in rec and want:
+            st['recorded_nonempty_and_out_not_recorded_but_matching'] += 1
+        if a != ('true' if want else 'false'):
+            st['disagreements'] += 1
+            if st['disagreements'] <= 3:
+                chk.disagreement('edge-model', {'kind': k, 'declared': pat, 'recorded': rec, 'output': out}, 'reads' if want else 'does not read', a,
+                                 'the regenerated dependencies_to_path of the model differs from "reads" computed from the declared pattern/path')
+
+
 def run(chk):
     quick = chk.tier == 'quick'
     ctx = sc.prepare(chk, PROPS)
@@ -165,6 +201,11 @@ def run(chk):
         '; a variant draws: realisation of every edge (explicit --step | --output-file/--file | --output-file/--glob), when in {by_dependencies, always, never}, '
         'a private input file dependency (p=.3), per step command true | sleep 30-150 ms | false | sleep+false | terminated by a signal (SEGV/KILL/TERM/ABRT, p=.1, '
         'half of them after writing the output file), pool in {1,2,4,n}, one or two consecutive runs; '
+        'HISTORIES in which the pipeline is EDITED between runs (run1 -> edit -> run2 -> producer fails -> run3; first the minimised C10-3 scenario): for every edge '
+        'realisation (step, file, glob, glob_items, regex, regex_items, lines, line_items) x {producer step added, output added to an existing step, dependency added to '
+        'an existing consumer} after state was recorded, judged per run on the pipeline as defined at that stage ("reads" from declared patterns/paths by the harness), '
+        'on the hook-free binary and on the hook build (logged edge list vs the model\'s buildGraph with the recorded items); the model\'s dependencies_to_path '
+        '(driver `edge`) against the harness on generated questions; '
         'CORPUS first: the C10-2 scenario (producer killed by each of 4 signals with/without output written; dependents by --step, --file, --glob), controls exit 0/3/139, an always dependent; '
         '18 targeted chains s2->s1->s0 (s0 fails or not, when(s1) in all three, all three edge kinds); producers creating outputs that do not exist before the run; '
         f'{len(cycles)} cyclic graphs (self loop, 2- and 3-cycles, cycle plus tail, through explicit and output-file edges). '
@@ -174,9 +215,13 @@ def run(chk):
     chk.extra['exhaustive_part'] = 'graph shapes: all labelled DAGs on <= 4 steps' if not quick else 'all labelled DAGs on <= 3 steps'
     model_cycle_test(ctx, chk, quick)
     corp = corpus()
+    hist = sh.corpus() + sh.gen_histories(chk.rng, quick)
     sc.run_family(ctx, 'corpus/plain', corp, OWN, hook=False)
+    sc.run_family(ctx, 'history/plain', hist, OWN, hook=False, shrink=False)
     if ctx.xvc_hook:
         sc.run_family(ctx, 'corpus/hook', [dict(c, sched=f'{chk.seed}:300') for c in corp], OWN, hook=True)
+        sc.run_family(ctx, 'history/hook', [dict(c, sched=f'{chk.seed + 5}:300') for c in hist], OWN, hook=True, shrink=False)
+    model_edge_test(ctx, chk)
     sc.run_family(ctx, 'dag/plain', cases, OWN, hook=False)
     sc.run_family(ctx, 'cycle/plain', cycles, OWN, hook=False, validate=False)
     if ctx.xvc_hook:
